@@ -14,7 +14,10 @@ use std::path::{Path, PathBuf};
 use std::process::{Command, Stdio};
 use std::time::{Duration, Instant};
 
-pub const VERIF_ROOT: &str = "/verif";
+/// Root of the verification tree (the directory holding `check`); the check script exports it.
+pub fn verif_root() -> String {
+    std::env::var("SIM_ROOT").unwrap_or_else(|_| "/verif".to_string())
+}
 const CHUNK: u64 = 64;
 
 pub fn verif_seed() -> u64 {
@@ -32,7 +35,7 @@ fn exe() -> PathBuf {
 }
 
 fn work_dir(prop: &str, tier: Tier) -> PathBuf {
-    PathBuf::from(format!("{VERIF_ROOT}/work/{prop}-{}-{}", tier.name(), std::process::id()))
+    PathBuf::from(format!("{}/work/{prop}-{}-{}", verif_root(), tier.name(), std::process::id()))
 }
 
 /// Execute one scenario in this process. Engines run the scenario on fresh
@@ -260,7 +263,7 @@ pub struct Known {
 }
 pub fn load_known() -> Known {
     let mut entries = Vec::new();
-    if let Ok(s) = std::fs::read_to_string(format!("{VERIF_ROOT}/known-findings.txt")) {
+    if let Ok(s) = std::fs::read_to_string(format!("{}/known-findings.txt", verif_root())) {
         for line in s.lines() {
             let line = line.trim();
             if let Some(rest) = line.strip_prefix("known:") {
@@ -457,7 +460,7 @@ pub fn check(prop: &str, tier: Tier) -> i32 {
     let mut n_known = 0usize;
     let budget_total = if tier == Tier::Quick { 30 } else { 300 };
     let mut reported_invariants: BTreeMap<String, usize> = BTreeMap::new();
-    let replay_dir = PathBuf::from(format!("{VERIF_ROOT}/replays"));
+    let replay_dir = PathBuf::from(format!("{}/replays", verif_root()));
     let ngroups = groups.len().max(1) as u64;
     for ((inv, _key), f) in groups {
         // known finding?
@@ -524,7 +527,7 @@ pub fn check(prop: &str, tier: Tier) -> i32 {
         o.insert("violations_by_invariant".into(), serde_json::to_value(&per_invariant_count).unwrap());
         o.insert("workers".into(), serde_json::json!(nw));
     }
-    let evp = format!("{VERIF_ROOT}/evidence/{prop}.json");
+    let evp = format!("{}/evidence/{prop}.json", verif_root());
     if let Err(e) = write_evidence(&evp, meta, tier, seed, &stats, wall, n_viol, n_known, extra) {
         println!("HARNESS-ERROR cannot write evidence: {e}");
         return 2;
@@ -580,7 +583,7 @@ pub fn replay(file: &str, verbose: bool) -> i32 {
             return 2;
         }
     };
-    let scratch = PathBuf::from(format!("{VERIF_ROOT}/work/replay-{}", std::process::id()));
+    let scratch = PathBuf::from(format!("{}/work/replay-{}", verif_root(), std::process::id()));
     let out = exec_child(&rf.property, &rf.scenario, &scratch);
     let _ = std::fs::remove_dir_all(&scratch);
     if verbose && !engines::crash_class(&rf.invariant) {
@@ -631,8 +634,8 @@ pub fn selftest_determinism(props: &[String], seeds: u64, runs_per_seed: u64) ->
         let total = runs_per_seed.min(engines::runs_for(prop, Tier::Quick));
         for s in 0..seeds {
             let seed = base.wrapping_add(s.wrapping_mul(7919));
-            let d1 = PathBuf::from(format!("{VERIF_ROOT}/work/det-{prop}-{}-a", std::process::id()));
-            let d2 = PathBuf::from(format!("{VERIF_ROOT}/work/det-{prop}-{}-b", std::process::id()));
+            let d1 = PathBuf::from(format!("{}/work/det-{prop}-{}-a", verif_root(), std::process::id()));
+            let d2 = PathBuf::from(format!("{}/work/det-{prop}-{}-b", verif_root(), std::process::id()));
             let a = run_slices(prop, Tier::Quick, seed, total, 1, &d1);
             let b = run_slices(prop, Tier::Quick, seed, total, n_workers(total).max(2).min((total / CHUNK).max(1)), &d2);
             let _ = std::fs::remove_dir_all(&d1);
